@@ -486,7 +486,7 @@ fn frag(rng: &mut Rng, ctx: &mut Ctx) {
         let (fl, fg) = read_line(&b, skip, hash);
         let o = read_opts(skip, hash);
         let xx = format!("xxh3:{:016x}", xxhash_rust::xxh3::xxh3_64(&b));
-        let mut c = Case::new(read_cmd(skip, hash, &b), String::new());
+        let mut c = Case::new(reads_cmd(skip, hash, &plan, &b), String::new());
         let res = std::panic::catch_unwind(|| slippi::read(Chunked::new(b.clone(), plan.clone(), None), Some(&o)));
         match res { Err(_) => { c.impl_out = "panic".into(); c.fail("C06", "reader panicked under short reads"); }
             Ok(Err(e)) => { c.impl_out = format!("err {}", e); if fg.is_some() { c.fail("C12", format!("read fails under fragmentation {}: {}", pname, e)); c.fail("C11", "read fails under fragmentation"); if skip { c.fail("C10", format!("skip-frames read fails over a stream with short reads ({}): {}", pname, e)); } } }
